@@ -162,6 +162,50 @@ def docstring_corpus(seen_classes):
     return out
 
 
+# entities whose child list is a MAPPING in the documentation (one child per key): variants that repeat a key are not documented shapes
+KEYED_CHILDREN = {'ResultPrivacyIqProtocolEntity': ('privacy', 'category', 'name')}
+
+
+def keyed_children_distinct(ecls, node):
+    k = KEYED_CHILDREN.get(ecls.__name__)
+    if k is None:
+        return True
+    parent = node.getChild(k[0])
+    if parent is None:
+        return True
+    keys = [c[k[2]] for c in parent.getAllChildren(k[1])]
+    return len(keys) == len(set(keys))
+
+
+def pinned_corpus():
+    """documented shapes that a fix made round-trip (known_findings.json, fixed: property=C09 ...).  Unlike docstring_corpus they are
+    used UNCONDITIONALLY: if the defect comes back the shape no longer reproduces and that is reported, not filtered away."""
+    from yowsup.structs import ProtocolTreeNode as N
+    from yowsup.layers.protocol_ib.protocolentities import AccountIbProtocolEntity, OfflineIbProtocolEntity, DirtyIbProtocolEntity
+    from yowsup.layers.protocol_groups.protocolentities import RemoveGroupsNotificationProtocolEntity
+    from yowsup.layers.protocol_profiles.protocolentities import ResultGetPictureIqProtocolEntity, ResultPrivacyIqProtocolEntity
+    from yowsup.layers.protocol_contacts.protocolentities import ResultSyncIqProtocolEntity
+    S = 's.whatsapp.net'
+    return [
+        (AccountIbProtocolEntity, N('ib', {'from': S}, [N('account', {'status': 'active', 'kind': 'paid', 'creation': '1400000000',
+                                                                      'expiration': '1500000000'})]), 'AccountIb(pinned)'),
+        (OfflineIbProtocolEntity, N('ib', {'from': S}, [N('offline', {'count': '5'})]), 'OfflineIb(pinned)'),
+        (DirtyIbProtocolEntity, N('ib', {'from': S}, [N('dirty', {'type': 'groups', 'timestamp': '1400000000'})]), 'DirtyIb(pinned)'),
+        (RemoveGroupsNotificationProtocolEntity,
+         N('notification', {'notify': 'x', 'id': '1', 't': '1420402514', 'participant': '4915100000001@' + S, 'from': '4915100000000-1400000000@g.us',
+                            'type': 'w:gp2', 'mode': 'none', 'offline': '0'},
+           [N('remove', {'subject': 's'}, [N('participant', {'jid': '4915100000002@' + S})])]), 'RemoveGroupsNotification(pinned)'),
+        (ResultGetPictureIqProtocolEntity, N('iq', {'type': 'result', 'from': '4915100000001@' + S, 'id': '7'},
+                                             [N('picture', {'type': 'image', 'id': '77'}, data=b'\xff\xd8abc')]), 'ResultGetPicture(pinned)'),
+        (ResultPrivacyIqProtocolEntity, N('iq', {'type': 'result', 'from': '4915100000001@' + S, 'id': '8'},
+                                          [N('privacy', {}, [N('category', {'name': 'last', 'value': 'all'}),
+                                                             N('category', {'name': 'status', 'value': 'none'})])]), 'ResultPrivacy(pinned)'),
+        (ResultSyncIqProtocolEntity, N('iq', {'type': 'result', 'from': '4915100000001@' + S, 'id': '9'},
+                                       [N('sync', {'index': '0', 'last': 'false', 'version': '1417046548593182', 'sid': '130615237617000000'})]),
+         'ResultSync(pinned)'),
+    ]
+
+
 def discover():
     classes = {}
     for p in sorted(glob.glob(os.path.join(REPO, 'yowsup', 'layers', '*', 'protocolentities', '*.py'))):
@@ -402,7 +446,7 @@ def run(tier, seed, out):
         classes = discover()
         with_fixture = {c.__name__ for c, _, _ in cases}
         doc_cases = docstring_corpus(with_fixture)
-        cases = cases + doc_cases
+        cases = cases + doc_cases + pinned_corpus()
         covered = {c.__name__ for c, _, _ in cases}
         res['samples'].append({'entity_classes_found': len(classes), 'with_fixture': len(with_fixture & set(classes)),
                                'docstring_shapes_used': len(doc_cases), 'classes_covered': len(covered & set(classes)),
@@ -421,10 +465,12 @@ def run(tier, seed, out):
                 base_ok = False
             keep = selectors(ecls, node0, rng) if base_ok else set()
             sendable = not re.match(r'^(Incoming|Result|Success|Failure|Error|List.*Result|Info.*Result)', ecls.__name__) \
-                and not ecls.__name__.endswith(('NotificationProtocolEntity', 'EncryptNotification', 'Notification'))
+                and not ecls.__name__.endswith(('NotificationProtocolEntity', 'EncryptNotification', 'Notification', 'IbProtocolEntity'))
             sweep = [node0] + (list(single_position_sweep(node0, keep)) if base_ok else [])
             for rep in range(len(sweep) + reps):
                 node = sweep[rep] if rep < len(sweep) else vary_node(rng, node0, keep)
+                if not keyed_children_distinct(ecls, node):
+                    continue            # outside the documented shape: the children are a mapping, a key occurs once
                 sec['n'] += 1
                 res['evaluations'] += 1
                 try:
